@@ -6,7 +6,7 @@
 # Writes detected_by / detected_rules into seeded/*/meta.json and refreshes the table in DESIGN.md.
 cd /verif
 LOG=${TMPDIR:-/tmp}/seedall.$$.log
-python3 tools/patchcheck.py -j ${J:-5} seeded/*/patch.diff > $LOG.1 2>&1
+if [ -n "$STAGE1" ]; then cp "$STAGE1" $LOG.1; else python3 tools/patchcheck.py -j ${J:-5} seeded/*/patch.diff > $LOG.1 2>&1; fi   # STAGE1=<log of an earlier patchcheck run over seeded/*>
 : > $LOG.2
 for d in seeded/*/; do
   n=$(basename $d)
